@@ -200,6 +200,14 @@ impl CoinWorld {
         guarded(move || decrypt_and_store_transaction(&net, st.wallet_mut(), &tx, h.map(BlockHeight::from)).map_err(|e| format!("{e:?}")))
     }
 
+    /// set_transaction_status(txid, Mined(h)): the answer to a status request the wallet queued for a transaction
+    pub fn status_mined(&self, w: &mut W, t: u32, h: u32) -> Result<Result<(), String>, String> {
+        use zcash_client_backend::data_api::TransactionStatus;
+        let txid = zcash_protocol::TxId::from_bytes(self.txs[&t].txid);
+        let st = &mut w.st;
+        guarded(move || st.wallet_mut().set_transaction_status(txid, TransactionStatus::Mined(BlockHeight::from(h))).map_err(|e| format!("{e:?}")))
+    }
+
     /// what the wallet has on record for transaction `t`: None = no row; Some(None) = a row, not mined
     pub fn wallet_mined(&self, w: &W, t: u32) -> Option<Option<u32>> {
         let txid = self.txs[&t].txid;
